@@ -132,7 +132,7 @@ def fop(op, a, b):
             if a < 0 and b != int(b):
                 raise Err()
             if a == 0 and b < 0:
-                raise Skip()
+                raise Err()          # zero to a negative power: a division by zero
             if a < 0 and abs(b) > 2 ** 31:
                 raise Skip()    # manual silent on huge integral exponents of a negative base
             r = math.pow(a, b)
@@ -380,6 +380,8 @@ def functions():
     for L in ('711.0', '-711.0', '800.0', '-800.0', '1.0e10', '-1.0e10'):
         f('sinh(%s)' % L, dom(lambda: 0.0, False))
         f('cosh(%s)' % L, dom(lambda: 0.0, False))
+    for L, x in (('709.0', 709.0), ('-709.0', -709.0), ('711.0', 711.0), ('-711.0', -711.0), ('1.0e10', 1e10), ('-1.0e300', -1e300)):
+        f('tanh(%s)' % L, (lambda x=x: math.tanh(x)), True)      # bounded: defined for every argument
     for L, x in (('709.0', 709.0), ('-709.0', -709.0)):
         f('sinh(%s)' % L, (lambda x=x: math.sinh(x)), True)
         f('cosh(%s)' % L, (lambda x=x: math.cosh(x)), True)
